@@ -1,6 +1,6 @@
 use ahash::{HashMap, HashMapExt, HashSet, HashSetExt};
 use indextree::NodeId;
-use xmlparser::{ElementEnd, StrSpan, Token, Tokenizer};
+use xmlparser::{ElementEnd, StrSpan, Stream, Token, Tokenizer};
 
 use crate::encoding::decode;
 use crate::entity::{parse_attribute, parse_text};
@@ -605,7 +605,7 @@ impl Xot {
     /// tree are located in the source text.
     pub fn parse_with_span_info(&mut self, xml: &str) -> Result<(Node, SpanInfo), ParseError> {
         let tokenizer = Tokenizer::from(xml);
-        let (span_info, builder) = self._parse(tokenizer)?;
+        let (span_info, builder) = self._parse(tokenizer, false)?;
         // we expect both a document as the current node (everything else being
         // closed) *and* the content of this node containing a single element
         // if not, we have a problem. We want to produce a parse error for
@@ -670,7 +670,7 @@ impl Xot {
         xml: &str,
     ) -> Result<(Node, SpanInfo), ParseError> {
         let tokenizer = Tokenizer::from_fragment(xml, 0..xml.len());
-        let (span_info, builder) = self._parse(tokenizer)?;
+        let (span_info, builder) = self._parse(tokenizer, true)?;
         if builder.is_current_node_document(self) {
             let document_node = Node::new(builder.tree);
             self.id_nodes_map
@@ -691,6 +691,7 @@ impl Xot {
     fn _parse(
         &mut self,
         mut tokenizer: Tokenizer<'_>,
+        fragment: bool,
     ) -> Result<(SpanInfo, DocumentBuilder), ParseError> {
         use Token::*;
 
@@ -793,6 +794,39 @@ impl Xot {
                         content,
                         span: _,
                     } => {
+                        // PITarget ::= Name - (('X' | 'x') ('M' | 'm') ('L' | 'l'))
+                        // xmlparser takes `<?xml` for the XML declaration (and rejects
+                        // a misplaced one) only where a space follows it; followed by
+                        // other white space it arrives here. At the very start of a
+                        // document that is the XML declaration all the same; anywhere
+                        // else, and in any other case, the target is reserved.
+                        if target.as_str().eq_ignore_ascii_case("xml") {
+                            let text = tokenizer.stream().span().as_str();
+                            let start = if text.starts_with('\u{feff}') { 3 } else { 0 };
+                            let version = if target.as_str() == "xml" && position == start && !fragment {
+                                content.and_then(|content| {
+                                    declaration_version(text, content.start()..content.end())
+                                })
+                            } else {
+                                None
+                            };
+                            match version {
+                                Some(version) if version.as_str() == "1.0" => continue,
+                                Some(version) => {
+                                    return Err(ParseError::UnsupportedVersion(
+                                        version.to_string(),
+                                        version.into(),
+                                    ));
+                                }
+                                None => {
+                                    let pos = tokenizer.stream().gen_text_pos_from(position);
+                                    return Err(ParseError::XmlParser(
+                                        xmlparser::Error::UnknownToken(pos),
+                                        position,
+                                    ));
+                                }
+                            }
+                        }
                         let node_id = builder.processing_instruction(
                             target.as_str(),
                             content.map(|s| s.as_str()),
@@ -900,6 +934,53 @@ impl Xot {
     pub fn parse_bytes(&mut self, bytes: &[u8]) -> Result<Node, ParseError> {
         let xml = decode(bytes, None);
         self.parse(&xml)
+    }
+}
+
+/// The version in the content of an XML declaration: `VersionInfo EncodingDecl?
+/// SDDecl? S?`, each a pseudo-attribute `S name Eq quoted-value` (the `S` in
+/// front of the first has been consumed with the target).
+fn declaration_version(text: &str, content: std::ops::Range<usize>) -> Option<StrSpan<'_>> {
+    let mut s = Stream::from_substr(text, content);
+    let mut version = None;
+    for name in ["version", "encoding", "standalone"] {
+        if !s.starts_with(name.as_bytes()) {
+            if name == "version" {
+                return None;
+            }
+            continue;
+        }
+        s.advance(name.len());
+        s.consume_eq().ok()?;
+        let quote = s.consume_quote().ok()?;
+        let value = s.consume_bytes(|_, c| c != quote);
+        s.consume_byte(quote).ok()?;
+        let v = value.as_str();
+        let valid = match name {
+            // VersionNum ::= '1.' [0-9]+
+            "version" => v
+                .strip_prefix("1.")
+                .map_or(false, |d| !d.is_empty() && d.bytes().all(|c| c.is_ascii_digit())),
+            // EncName ::= [A-Za-z] ([A-Za-z0-9._] | '-')*
+            "encoding" => {
+                v.starts_with(|c: char| c.is_ascii_alphabetic())
+                    && v.bytes()
+                        .all(|c| c.is_ascii_alphanumeric() || matches!(c, b'.' | b'_' | b'-'))
+            }
+            _ => v == "yes" || v == "no",
+        };
+        if !valid || !(s.at_end() || s.starts_with_space()) {
+            return None;
+        }
+        if name == "version" {
+            version = Some(value);
+        }
+        s.skip_spaces();
+    }
+    if s.at_end() {
+        version
+    } else {
+        None
     }
 }
 
